@@ -42,6 +42,7 @@ func (p *Prog) effectConfig() effectConfig {
 	req := p.REQ()
 	return effectConfig{
 		classify: p.classifyType,
+		resolve:  p.moduleCallees,
 		setupCaptured: func(lit *ssa.Function) bool {
 			// free variables are long-lived when the enclosing function is not itself part of the request phase
 			return lit.Parent() != nil && !req[lit.Parent()]
